@@ -248,9 +248,7 @@ def step (e : Env) (line : String) : Env × String :=
     | none => (e, "bad-op")
     | some st =>
       let v := n.toInt?.getD 0
-      let st' : State := match st.dir with
-        | .basic b => { st with dir := .basic { b with s := { b.s with maxLinks := v } } }
-        | .hamt hd => { st with dir := .hamt { hd with s := { hd.s with maxLinks := v } } }
+      let st' := setMaxLinks st v
       ({ e with st := some st', cfg := { e.cfg with maxLinks := v } }, s!"ok | {showState st' false}")
   | ["setfanout", n] =>
     match e.st with
@@ -266,18 +264,14 @@ def step (e : Env) (line : String) : Env × String :=
     | none => (e, "bad-op")
     | some st =>
       let v := n.toNat?.getD 0
-      let st' : State := match st.dir with
-        | .basic b => { st with dir := .basic (b.setMode e.g v) }
-        | .hamt hd => { st with dir := .hamt { hd with s := { hd.s with pmode := some v } } }
+      let st' := setEstMode e.g st v
       ({ e with st := some st', cfg := { e.cfg with pmode := some v } }, s!"ok | {showState st' false}")
   | ["setthr", n] =>
     match e.st with
     | none => (e, "bad-op")
     | some st =>
       let v := n.toInt?.getD 0
-      let st' : State := match st.dir with
-        | .basic b => { st with dir := .basic { b with s := { b.s with thr := v } } }
-        | .hamt hd => { st with dir := .hamt { hd with s := { hd.s with thr := v } } }
+      let st' := setThr st v
       ({ e with st := some st', cfg := { e.cfg with pthr := v } }, s!"ok | {showState st' false}")
   | ["setstat", m, sec, ns] =>
     match e.st with
